@@ -510,7 +510,7 @@ def load_corpus():
         for f in sorted(os.listdir(d)):
             if f.endswith(".json"):
                 j = json.load(open(os.path.join(d, f)))
-                out.append((f[:-5], j["streams"], j.get("naming", "list")))
+                out.append((f[:-5], j["streams"], j.get("naming", "list"), j.get("orders")))
     return out
 
 
@@ -525,8 +525,8 @@ def run(chk):
     ]
     chk.assumptions = ["attribute values fit a C int (the emulator casts the JSON double to int)",
                        "loom names are NUL-free and shorter than PATH_MAX",
-                       "two different processes with the same rank: the order 'by rank' is undetermined; the property is read as silent "
-                       "about it (C15_union has the hypothesis rank_names_proc; C15_union_rank_ties_refuted shows it is needed)",
+                       "C15_union has the hypothesis rank_names_proc (no rank claimed by two different processes); without it the statement "
+                       "is false (C15_union_rank_ties_refuted) and the real emulator shows it: known finding rank-ties-order-dependent",
                        "'duplicate TIDs' is read as the same (loom, pid, tid) in two streams"]
     chk.prove()
     build = common.repo_build("hook")
@@ -542,8 +542,13 @@ def run(chk):
     cases = []          # dict(kind, label, streams (list order), naming)
 
     # ---- corpus first
-    for (nm, streams, naming) in load_corpus():
+    for (nm, streams, naming, orders) in load_corpus():
         n = len(streams)
+        if orders:      # the same streams under several enumeration orders (rank ties)
+            for od in orders:
+                cases.append({"kind": "corpus-ranktie", "label": nm, "streams": [streams[k] for k in od],
+                              "naming": tuple("s%02d" % k for k in range(n))})
+            continue
         cases.append({"kind": "corpus", "label": nm, "streams": streams,
                       "naming": tuple("s%02d" % k for k in range(n)) if naming == "list" else "conv"})
 
@@ -710,6 +715,25 @@ def run(chk):
     for c, o in zip(cases, obs):
         if c["kind"] == "ranktie":
             tie_obs.setdefault(spec_union(c["ordered"]), set()).add(json.dumps([o["cls"], o["thread.row"], o["cpu.row"]]))
+    # known finding: equal ranks in two processes are ordered by enumeration order (corpus/C15/05-rank-tie.json)
+    tie_corpus = {}
+    for c, o in zip(cases, obs):
+        if c["kind"] == "corpus-ranktie":
+            tie_corpus.setdefault(c["label"], []).append((c, o))
+    for lab, g in sorted(tie_corpus.items()):
+        c0, o0 = g[0]
+        for (c1, o1) in g[1:]:
+            if spec_union(c0["ordered"]) == spec_union(c1["ordered"]) and \
+                    (o0["cls"], o0["thread.row"], o0["cpu.row"]) != (o1["cls"], o1["thread.row"], o1["cpu.row"]):
+                chk.violation("rank-ties-order-dependent",
+                              "two processes claiming the same rank make thread/CPU rows depend on stream enumeration order",
+                              {"corpus": "corpus/C15/%s.json" % lab, "theorem": "C15_union_rank_ties_refuted",
+                               "enumeration_a": c0["ordered"], "enumeration_b": c1["ordered"],
+                               "a_result": [o0["cls"], o0["thread.row"], o0["cpu.row"]],
+                               "b_result": [o1["cls"], o1["thread.row"], o1["cpu.row"]],
+                               "how": "one directory per stream (names sorting in the listed order) with stream.json and an OHx/OHe "
+                                      "stream.obs; run ovniemu on each enumeration and compare thread.row"})
+                break
     chk.coverage["rank_tie_unions_observed"] = len(tie_obs)
     chk.coverage["rank_tie_unions_with_order_dependent_rows"] = sum(1 for v in tie_obs.values() if len(v) > 1)
     if cases:
@@ -718,7 +742,7 @@ def run(chk):
                         "impl": obs[k]["cls"], "thread.row": obs[k]["thread.row"], "cpu.row": obs[k]["cpu.row"], "model": ansB[k]})
     if corr:
         chk.coverage["correspondence_disagreements"] = corr[:10]
-        if not chk.violations and not chk.known_hits:
+        if not chk.violations:
             chk.violation("broken-correspondence",
                           "model and ovniemu disagree on %d inputs, none of which violates the property's spec" % len(corr),
                           {"correspondence": "MetaDefs.build vs ovniemu", "disagreements": corr[:20]}, found_input=False)
